@@ -14,6 +14,8 @@ TEXTBOOK = {
     "dangling-else": 'grammar g; start = s; s = "if" "e" "then" s | "if" "e" "then" s "else" s | "x";',
     "dangling-else-resolved": 'grammar g; @right "else" "then"; start = s; s = "if" "e" "then" s | "if" "e" "then" s "else" s | "x";',
     "ambiguous-expr": 'grammar g; start = e; e = e "+" e | e "*" e | "id";',
+    "rule-handle-alternatives-first": 'grammar g; @left <e = e e | e o e>; @left "x" "(" "+" "-"; start = e; e = e e | e o e | "x" | "(" e ")"; o = "+" | "-";',
+    "rule-handle-alternatives-later": 'grammar g; @left "x" <e = e e | e o e>; @left "(" "+" "-"; start = e; e = e e | e o e | "x" | "(" e ")"; o = "+" | "-";',
     "ambiguous-resolved": 'grammar g; @left "*"; @left "+"; start = e; e = e "+" e | e "*" e | "(" e ")" | "id";',
     "right-assoc": 'grammar g; @right "^"; @left "*"; @left "+"; start = e; e = e "+" e | e "*" e | e "^" e | "id";',
     "nonassoc": 'grammar g; @none "<"; @left "+"; start = e; e = e "+" e | e "<" e | "id";',
@@ -43,7 +45,8 @@ def directives_as_written(text):
             elif h.group(2) is not None:
                 terms.append(h.group(2))
             else:
-                body = []
+                # one production handle per alternative of the rule handle (top-level `|`; no brackets)
+                alts, body = [], []
                 for b in re.finditer(r'"((?:[^"\\\\]|\\\\.)*)"|([A-Z][A-Z0-9_]*)|([a-z][a-z0-9_]*)|(\S)', h.group(4)):
                     if b.group(1) is not None:
                         body.append(["t", b.group(1)])
@@ -51,9 +54,14 @@ def directives_as_written(text):
                         body.append(["t", b.group(2)])
                     elif b.group(3) is not None:
                         body.append(["n", b.group(3)])
+                    elif b.group(4) == "|":
+                        alts.append(body)
+                        body = []
                     else:
                         return None          # extended operators inside a rule handle: not read here (C12 covers them)
-                prods.append({"head": h.group(3), "body": body})
+                alts.append(body)
+                for a_ in alts:
+                    prods.append({"head": h.group(3), "body": a_})
         levels.append((assoc, sorted(set(terms)), sorted(json.dumps(p, sort_keys=True) for p in prods)))
     return levels
 
